@@ -10,6 +10,7 @@ import (
 	"context"
 	"encoding/json"
 	"fmt"
+	"hash/crc32"
 	"io"
 	"log"
 	"os"
@@ -66,6 +67,50 @@ type Scenario struct {
 	Extra   s2util.Repo   `json:"extra"` // a second, simple shard for the directory searcher
 	Cap     int           `json:"cap"`
 	History []*QN         `json:"history"`
+	// large documents, given as recipes (expanded deterministically; a replay file stays small): document sizes that
+	// cross the thresholds of per-shard buffers and caches (hundreds to thousands of lines, next to the small ones)
+	Big []BigDoc `json:"big,omitempty"`
+}
+
+type BigDoc struct {
+	Repo  int    `json:"repo"` // index into Repos; the document becomes that repository's FIRST document
+	Lines int    `json:"lines"`
+	Seed  uint64 `json:"seed"`
+}
+
+// expand: filler lines, a pool word on the first lines and on roughly every 90th line
+func (b BigDoc) expand(name string) s2util.Doc {
+	r := gen.NewRand(b.Seed)
+	var c []byte
+	for i := 0; i < b.Lines; i++ {
+		if i < 6 || r.Chance(1, 90) {
+			c = append(c, gen.Pick(r, words)...)
+			if r.Bool() {
+				c = append(c, ' ')
+				c = append(c, gen.Pick(r, words)...)
+			}
+		} else {
+			c = append(c, 'x')
+			c = strconv.AppendInt(c, int64(i), 10)
+		}
+		c = append(c, '\n')
+	}
+	return s2util.Doc{Name: name, Content: c}
+}
+
+// withBig returns the scenario's repositories with the large documents in place
+func (sc Scenario) withBig() []s2util.Repo {
+	if len(sc.Big) == 0 {
+		return sc.Repos
+	}
+	out := make([]s2util.Repo, len(sc.Repos))
+	copy(out, sc.Repos)
+	for k, b := range sc.Big {
+		i := b.Repo % len(out)
+		d := b.expand(fmt.Sprintf("%s_big%d.txt", out[i].Name, k))
+		out[i].Docs = append([]s2util.Doc{d}, out[i].Docs...)
+	}
+	return out
 }
 
 // naive evaluation: a document matches meta.f:p iff its repository has metadata f whose value matches p;
@@ -282,6 +327,77 @@ func searchNames(s zoekt.Searcher, q query.Q) ([]string, error) {
 	return names, nil
 }
 
+// optsFor: the i-th search of a history runs with one of several option sets (line matches, chunk matches, context)
+func optsFor(i int) *zoekt.SearchOptions {
+	switch i % 3 {
+	case 1:
+		return &zoekt.SearchOptions{ChunkMatches: true, NumContextLines: 1}
+	case 2:
+		return &zoekt.SearchOptions{NumContextLines: 2}
+	}
+	return &zoekt.SearchOptions{}
+}
+
+// searchFull: file names, and a canonical rendering of everything the search reports about every file: score,
+// line numbers, line boundaries, fragment offsets, line contents (as a checksum), chunk positions and ranges.
+// lines[file] = the line numbers of its LineMatches.
+func searchFull(s zoekt.Searcher, q query.Q, opts *zoekt.SearchOptions) (names []string, detail string, lines map[string][]int, err error) {
+	o := *opts
+	// a single indexData has no recover of its own (the sharded searcher has): a panic is a result, not a harness crash
+	defer func() {
+		if r := recover(); r != nil {
+			names, detail, lines, err = nil, "", nil, fmt.Errorf("search panicked: %v", r)
+		}
+	}()
+	res, err := s.Search(context.Background(), q, &o)
+	if err != nil {
+		return nil, "", nil, err
+	}
+	lines = map[string][]int{}
+	var fs []string
+	for _, f := range res.Files {
+		names = append(names, f.FileName)
+		var ms []string
+		for _, lm := range f.LineMatches {
+			lines[f.FileName] = append(lines[f.FileName], lm.LineNumber)
+			var fr []string
+			for _, x := range lm.LineFragments {
+				fr = append(fr, fmt.Sprintf("%d/%d/%d", x.LineOffset, x.Offset, x.MatchLength))
+			}
+			ms = append(ms, fmt.Sprintf("L%d[%d,%d)%08x b%08x a%08x {%s}", lm.LineNumber, lm.LineStart, lm.LineEnd, crc32.ChecksumIEEE(lm.Line),
+				crc32.ChecksumIEEE(lm.Before), crc32.ChecksumIEEE(lm.After), strings.Join(fr, " ")))
+		}
+		for _, cm := range f.ChunkMatches {
+			var rg []string
+			for _, x := range cm.Ranges {
+				rg = append(rg, fmt.Sprintf("%d:%d:%d-%d:%d:%d", x.Start.ByteOffset, x.Start.LineNumber, x.Start.Column, x.End.ByteOffset, x.End.LineNumber, x.End.Column))
+			}
+			ms = append(ms, fmt.Sprintf("C@%d:%d:%d %08x(%d) {%s}", cm.ContentStart.ByteOffset, cm.ContentStart.LineNumber, cm.ContentStart.Column,
+				crc32.ChecksumIEEE(cm.Content), len(cm.Content), strings.Join(rg, " ")))
+		}
+		sort.Strings(ms)
+		sort.Ints(lines[f.FileName])
+		fs = append(fs, fmt.Sprintf("%s score=%.4f %s", f.FileName, f.Score, strings.Join(ms, "; ")))
+	}
+	sort.Strings(fs)
+	sort.Strings(names)
+	if res.Stats.Crashes > 0 {
+		names = append(names, fmt.Sprintf("!crashes=%d", res.Stats.Crashes))
+	}
+	detail = fmt.Sprintf("files=%d matches=%d | %s", res.Stats.FileCount, res.Stats.MatchCount, strings.Join(fs, " || "))
+	return names, detail, lines, nil
+}
+
+// firstDiff shortens two long renderings to the place where they start to differ
+func firstDiff(a, b string) string {
+	i := 0
+	for i < len(a) && i < len(b) && a[i] == b[i] {
+		i++
+	}
+	lo := max(i-60, 0)
+	return fmt.Sprintf("…%s  VERSUS  …%s", a[lo:min(i+100, len(a))], b[lo:min(i+100, len(b))])
+}
+
 func must(err error) {
 	if err != nil {
 		panic(err)
@@ -303,7 +419,7 @@ func scratch() string {
 var builtKey, builtDir, builtPath string
 
 func corpusDir(sc Scenario) (shardDir, path string) {
-	kb, _ := json.Marshal([]any{sc.Repos, sc.Extra})
+	kb, _ := json.Marshal([]any{sc.Repos, sc.Extra, sc.Big})
 	if string(kb) == builtKey {
 		return builtDir, builtPath
 	}
@@ -313,7 +429,7 @@ func corpusDir(sc Scenario) (shardDir, path string) {
 	dir := scratch()
 	shardDir = filepath.Join(dir, "idx")
 	must(os.MkdirAll(shardDir, 0o755))
-	path, err := s2util.WriteCompoundShard(shardDir, filepath.Join(dir, "simple"), sc.Repos)
+	path, err := s2util.WriteCompoundShard(shardDir, filepath.Join(dir, "simple"), sc.withBig())
 	must(err)
 	must(s2util.WriteSimpleShard(filepath.Join(dir, "xtra_v16.00000.zoekt"), sc.Extra))
 	builtKey, builtDir, builtPath = string(kb), shardDir, path
@@ -322,6 +438,8 @@ func corpusDir(sc Scenario) (shardDir, path string) {
 
 func runScenario(w *gen.Writer, sc Scenario, dirMode bool, label string) {
 	shardDir, path := corpusDir(sc)
+	recipe := sc
+	sc.Repos, sc.Big = sc.withBig(), nil // from here on: the expanded corpus (the recipe goes into the replay detail)
 	xtraSrc := filepath.Join(filepath.Dir(shardDir), "xtra_v16.00000.zoekt")
 	xtraDst := filepath.Join(shardDir, "xtra_v16.00000.zoekt")
 	os.Remove(xtraDst)
@@ -377,19 +495,41 @@ func runScenario(w *gen.Writer, sc Scenario, dirMode bool, label string) {
 		capClass = "cache-on"
 	}
 	solo := make([][]string, len(sc.History))
+	soloDetail := make([]string, len(sc.History))
 	nontrivial := false
 	for i, qn := range sc.History {
 		q := qn.toQuery()
 		prepared, _ := index.VerifC04Prepared(S, q)
 		searches = append(searches, t.ser(prepared))
-		got, err := searchNames(S, q)
-		must(err)
+		got, gotDetail, _, err := searchFull(S, q, optsFor(i))
+		if err != nil {
+			fail(fmt.Sprintf("search %d of the history failed: %v", i, err), "history-search-failed:"+capClass)
+		}
 		// the property's own statement: alone, on a freshly loaded index, same configuration
 		F, err := s2util.OpenSearcher(path)
 		must(err)
-		solo[i], err = searchNames(F, q)
+		var soloLines map[string][]int
+		solo[i], soloDetail[i], soloLines, err = searchFull(F, q, optsFor(i))
 		must(err)
 		F.Close()
+		if gotDetail != soloDetail[i] && strings.Join(got, ",") == strings.Join(solo[i], ",") {
+			fail(fmt.Sprintf("search %d of the history reports the same files with other match details (line numbers / boundaries / offsets / scores) than alone on a fresh searcher: %s", i, firstDiff(gotDetail, soloDetail[i])), "history-dependent-details:"+capClass)
+		}
+		// independent line oracle for a plain content atom: the matching lines are those that contain the pattern
+		if qn.Kind == "sub" && !optsFor(i).ChunkMatches {
+			for fn, ls := range soloLines {
+				var want []int
+				for ln, line := range bytes.Split(contentByName[fn], []byte{'\n'}) {
+					if bytes.Contains(line, []byte(qn.Pat)) {
+						want = append(want, ln+1)
+					}
+				}
+				if fmt.Sprint(ls) != fmt.Sprint(want) {
+					fail(fmt.Sprintf("search %d alone reports line numbers %v for %s, the lines containing %q are %v", i, ls, fn, qn.Pat, want), "solo-lines-differ-from-naive")
+				}
+			}
+			w.Count("line-oracle-evaluations", 1)
+		}
 		// naive oracle
 		var naive []string
 		for di, n := range names {
@@ -438,7 +578,7 @@ func runScenario(w *gen.Writer, sc Scenario, dirMode bool, label string) {
 		return strings.Join(xs, ";")
 	}
 	in := fmt.Sprintf("hist %d %d %s %s %s %s", maxEntries, len(names), gen.NatList(docRepo), or(t.metas), or(t.leaves), strings.Join(searches, "|"))
-	cs := gen.Case{In: in, Impl: strings.Join(impls, "|"), Class: label + "/" + capClass, Nontrivial: nontrivial, Detail: gen.Detail(map[string]any{"scenario": sc})}
+	cs := gen.Case{In: in, Impl: strings.Join(impls, "|"), Class: label + "/" + capClass, Nontrivial: nontrivial, Detail: gen.Detail(map[string]any{"scenario": recipe})}
 	if verdict != "ok" {
 		cs.Go, cs.Key = verdict, key
 	}
@@ -447,7 +587,7 @@ func runScenario(w *gen.Writer, sc Scenario, dirMode bool, label string) {
 	w.Count("meta-atoms-reaching-newMatchTree", len(t.metas))
 
 	// ---- the same history, concurrently, on the same searcher ----
-	conc := func(s zoekt.Searcher, want [][]string, class string) {
+	conc := func(s zoekt.Searcher, want [][]string, wantDetail []string, class string) {
 		var mu sync.Mutex
 		bad := ""
 		var wg sync.WaitGroup
@@ -458,11 +598,17 @@ func runScenario(w *gen.Writer, sc Scenario, dirMode bool, label string) {
 				for rep := 0; rep < 3; rep++ {
 					for i := range sc.History {
 						j := (i + g) % len(sc.History)
-						got, err := searchNames(s, sc.History[j].toQuery())
+						got, gotDetail, _, err := searchFull(s, sc.History[j].toQuery(), optsFor(j))
 						if err != nil || strings.Join(got, ",") != strings.Join(want[j], ",") {
 							mu.Lock()
 							if bad == "" {
 								bad = fmt.Sprintf("concurrent search %d returned %v (err %v), alone %v", j, got, err, want[j])
+							}
+							mu.Unlock()
+						} else if wantDetail != nil && gotDetail != wantDetail[j] {
+							mu.Lock()
+							if bad == "" {
+								bad = fmt.Sprintf("concurrent search %d reports other match details than alone: %s", j, firstDiff(gotDetail, wantDetail[j]))
 							}
 							mu.Unlock()
 						}
@@ -471,13 +617,13 @@ func runScenario(w *gen.Writer, sc Scenario, dirMode bool, label string) {
 			}(g)
 		}
 		wg.Wait()
-		c := gen.Case{Class: class + "/" + capClass, Nontrivial: nontrivial, Detail: gen.Detail(map[string]any{"scenario": sc, "mode": class})}
+		c := gen.Case{Class: class + "/" + capClass, Nontrivial: nontrivial, Detail: gen.Detail(map[string]any{"scenario": recipe, "mode": class})}
 		if bad != "" {
 			c.Go, c.Key = bad, "concurrent-history-dependent:"+capClass
 		}
 		w.Emit(c)
 	}
-	conc(S, solo, "concurrent")
+	conc(S, solo, soloDetail, "concurrent")
 
 	// ---- end to end: search.NewDirectorySearcher over the compound shard and a second shard ----
 	if dirMode {
@@ -496,14 +642,19 @@ func runScenario(w *gen.Writer, sc Scenario, dirMode bool, label string) {
 		ds, err := search.NewDirectorySearcher(shardDir)
 		must(err)
 		bad, badKey := "", ""
+		dirDetail := make([]string, len(sc.History))
 		for i, qn := range sc.History {
-			got, err := searchNames(ds, qn.toQuery())
+			got, gotDetail, _, err := searchFull(ds, qn.toQuery(), optsFor(i))
 			must(err)
 			fresh, err := search.NewDirectorySearcher(shardDir)
 			must(err)
-			alone, err := searchNames(fresh, qn.toQuery())
+			alone, aloneDetail, _, err := searchFull(fresh, qn.toQuery(), optsFor(i))
 			must(err)
 			fresh.Close()
+			dirDetail[i] = aloneDetail
+			if gotDetail != aloneDetail && strings.Join(got, ",") == strings.Join(alone, ",") && bad == "" {
+				bad, badKey = fmt.Sprintf("directory searcher: search %d of the history reports other match details than alone on a fresh directory searcher: %s", i, firstDiff(gotDetail, aloneDetail)), "dir-history-dependent-details:"+capClass
+			}
 			if strings.Join(got, ",") != strings.Join(alone, ",") && bad == "" {
 				bad, badKey = fmt.Sprintf("directory searcher: search %d of the history returned %v, alone on a fresh directory searcher %v", i, got, alone), "dir-history-dependent:"+capClass
 			}
@@ -511,12 +662,12 @@ func runScenario(w *gen.Writer, sc Scenario, dirMode bool, label string) {
 				bad, badKey = fmt.Sprintf("directory searcher: search %d alone returned %v, naive evaluation %v", i, alone, naiveAll[i]), "dir-solo-differs-from-naive"
 			}
 		}
-		c := gen.Case{Class: "directory-searcher/" + capClass, Nontrivial: nontrivial, Detail: gen.Detail(map[string]any{"scenario": sc, "mode": "directory"})}
+		c := gen.Case{Class: "directory-searcher/" + capClass, Nontrivial: nontrivial, Detail: gen.Detail(map[string]any{"scenario": recipe, "mode": "directory"})}
 		if bad != "" {
 			c.Go, c.Key = bad, badKey
 		}
 		w.Emit(c)
-		conc(ds, naiveAll, "directory-concurrent")
+		conc(ds, naiveAll, dirDetail, "directory-concurrent")
 		ds.Close()
 	}
 }
@@ -584,9 +735,16 @@ func main() {
 	n := f.N(12, 300) // corpora; each carries several histories and cache sizes
 	for i := 0; i < n; i++ {
 		base := genScenario(r)
+		if i%3 == 1 { // large documents next to small ones
+			for k := r.Range(1, 2); k > 0; k-- {
+				base.Big = append(base.Big, BigDoc{Repo: r.Intn(len(base.Repos)), Lines: gen.Pick(r, []int{300, 1500, 4200, 4700, 5300}), Seed: r.U64()})
+			}
+			base.Big[0].Lines = gen.Pick(r, []int{4200, 4700, 5300})
+			w.Count("corpora-with-documents-over-4096-lines", 1)
+		}
 		for j := 0; j < 20; j++ {
 			sc := genScenario(r)
-			sc.Repos, sc.Extra = base.Repos, base.Extra
+			sc.Repos, sc.Extra, sc.Big = base.Repos, base.Extra, base.Big
 			runScenario(w, sc, j%7 == 0, "generated")
 		}
 	}
